@@ -189,7 +189,7 @@ class WorldScenario(BaseScenario):
 
 
 def make(name: str, *args):
-    if name in ("C01", "C02", "C06"):
+    if name in ("C02", "C06"):
         return WorldScenario(name)
     from . import registry
 
